@@ -28,14 +28,31 @@ func HarnessC05a() {
 	probe := symKey{verifNondetKey("probe")}
 	cur, md, _ = applyOps("h", cur, md, cfg, K, 2)
 	for round := 0; round < 2; round++ {
-		r, err := cur.MakeRoot(vctx)
-		verifAssert("C05.makeroot.err", err == nil)
-		if err != nil {
+		var r *Root
+		var t2 *Mast
+		var err error
+		stage := 0
+		panicked := verifPanics(func() {
+			r, err = cur.MakeRoot(vctx)
+			if err != nil {
+				return
+			}
+			stage = 1
+			t2, err = r.LoadMast(vctx, cfg)
+			if err == nil {
+				stage = 2
+			}
+		})
+		verifAssert("C05.persist-and-reload-do-not-panic", !panicked)
+		if panicked {
 			return
 		}
-		t2, err := r.LoadMast(vctx, cfg)
-		verifAssert("C05.load.err", err == nil)
-		if err != nil {
+		verifAssert("C05.makeroot.err", stage >= 1)
+		if stage < 1 {
+			return
+		}
+		verifAssert("C05.load.err", stage >= 2)
+		if stage < 2 {
 			return
 		}
 		verifAssert("C05.size", t2.Size() == cur.Size())
